@@ -182,12 +182,22 @@ def run(ctx):
             r = N(ix, sym.unwrap(p.ret))
             if r == ("int", 0):
                 continue  # zero amount
-            if d is None or rem_nz is None or grew is None:
-                bad = bad or "a non-zero path lacks the direction / remainder / growth decision (d=%s rem=%s grew=%s)" % (d, rem_nz, grew)
+            if rem_nz is False and d is None:
+                # no correction on this path: the result does not depend on the direction beyond side'; take the direction
+                # that makes side' match (an early return before the direction is looked at)
+                for d_try in ("AddToAmm", "RemoveFromAmm"):
+                    s2 = ("add", ("leaf", own), ("leaf", amount)) if d_try == "AddToAmm" else ("sub", ("leaf", own), ("leaf", amount))
+                    if match(("absdiff", ("div", ("mul", K, D), s2), ("leaf", other)), r) is not None:
+                        d = d_try
+            if d is None or rem_nz is None:
+                bad = bad or "a non-zero path lacks the direction / remainder decision (d=%s rem=%s grew=%s)" % (d, rem_nz, grew)
                 continue
             side2 = ("add", ("leaf", own), ("leaf", amount)) if d == "AddToAmm" else ("sub", ("leaf", own), ("leaf", amount))
             AFTER = ("div", ("mul", K, D), side2)
-            diff = ("sub", AFTER, ("leaf", other)) if grew else ("sub", ("leaf", other), AFTER)
+            if grew is None:
+                diff = ("absdiff", AFTER, ("leaf", other))   # |after - other| spelled with abs_diff: no growth branch
+            else:
+                diff = ("sub", AFTER, ("leaf", other)) if grew else ("sub", ("leaf", other), AFTER)
             if rem_nz:
                 want = ("sub", diff, ("int", 1)) if d == "AddToAmm" else ("add", diff, ("int", 1))
             else:
